@@ -117,12 +117,16 @@ def parseExpr (loops : List String) : Nat → Json → PM (MExpr Rat)
           else liftE (.error "der-of-expression")
         | _ => liftE (.error "der-arity")
       else if op = "delay" then
-        -- the operands are still translated (they feed the delay-argument function), the value of the
-        -- operator is the fresh input symbol
-        let _ ← parseExprs loops fuel args
-        let n ← get
-        set (n + 1)
-        pure (.ref ("_pymoca_delay_" ++ toString n) [])
+        -- operands first (inner delay operators get the smaller numbers), then this operator's number
+        if !loops.isEmpty then liftE (.error "delay-in-loop") else
+        match args with
+        | [a, b] =>
+          let ta ← parseExpr loops fuel a
+          let tb ← parseExpr loops fuel b
+          let n ← get
+          set (n + 1)
+          pure (.delay n ta tb)
+        | _ => liftE (.error "delay-arity")
       else
         let as ← parseExprs loops fuel args
         match as with
@@ -337,10 +341,18 @@ def handleResidual (req : Json) : E Json := do
       | .error _ => Json.null
     let m := jsonVals (residualsOfModel ratPrims ρ p.model initial)
     Json.mkObj [("c", c), ("m", m)]
+  let gd := genDelayFunction ratPrims o p.model
+  let delays := pts.map fun pt =>
+    let ρ := mkEnv p.syms pt
+    let c := match gd with
+      | .ok f => jsonVals (evalFn ratPrims ρ f)
+      | .error _ => Json.null
+    Json.mkObj [("c", c), ("m", jsonVals (delayArgsOfModel ratPrims ρ p.model))]
   let gtag := match g with
     | .ok f => Json.mkObj [("ok", true), ("expand", f.expand)]
     | .error e => Json.mkObj [("ok", false), ("err", Json.str (errTag e))]
-  pure (Json.mkObj [("ok", true), ("gen", gtag), ("points", Json.arr outs.toArray)])
+  pure (Json.mkObj [("ok", true), ("gen", gtag), ("points", Json.arr outs.toArray),
+                    ("delay", Json.arr delays.toArray)])
 
 def allBin : List BinOp :=
   [.add, .sub, .mul, .div, .pow, .eadd, .esub, .emul, .ediv, .epow, .lt, .le, .gt, .ge, .eq, .ne, .and, .or, .min, .max]
